@@ -10,6 +10,7 @@ CONSTANTS MaxLinks = 1
  Streaming = FALSE
  PinSer = FALSE
  PinBos = TRUE
+ Spans = {0}
  PLen = 2
  ReadLens = {1,100}
  MaxCalls = 3
